@@ -22,8 +22,9 @@ import (
 
 // Engine runs scripts against the real code and records traces.
 type Engine struct {
-	tr   *Tracer
-	self int64
+	tr    *Tracer
+	self  int64
+	epoch int64 // incremented at the start of every run
 
 	emu sync.Mutex
 	ex  map[int64]bool
@@ -197,6 +198,8 @@ func (e *Engine) releaseCtxWaiters(sc *Script, cs []*callRun) {
 // RunSched executes a scheduled script on one call.
 func (e *Engine) RunSched(sc *Script) []Ev {
 	e.self = myGoid()
+	atomic.AddInt64(&e.epoch, 1)
+	e.tr.Take()
 	if len(sc.Gates) > 0 {
 		gates.enable(sc.Gates)
 	}
@@ -333,17 +336,21 @@ func (e *Engine) finishRun(sc *Script, cs []*callRun) []Ev {
 		theImpl.remove(c)
 		c.keep = append(c.keep, c.stream)
 	}
+	evs := e.tr.Take()
+	atomic.AddInt64(&e.epoch, 1)
 	if stuck {
 		// goroutines are parked inside the library for good; this process
 		// can not be trusted for further runs
 		e.infraErr = "stuck after " + sc.ID
 	}
-	return e.tr.Take()
+	return evs
 }
 
 // RunFree executes a free-running script on Calls concurrent calls.
 func (e *Engine) RunFree(sc *Script) []Ev {
 	e.self = myGoid()
+	atomic.AddInt64(&e.epoch, 1)
+	e.tr.Take()
 	n := sc.Calls
 	if n < 1 {
 		n = 1
